@@ -4,6 +4,7 @@ import (
 	"fmt"
 	"os"
 	"path/filepath"
+	"sort"
 	"strings"
 	"time"
 
@@ -258,17 +259,21 @@ type c16Case struct {
 	Stderr string
 	Env    string   // stream bigfiles: the environment variable the command ran under (GOMAXPROCS=n)
 	Tree   *c16Tree // stream trees: the journal as written (an include tree); J is then the union of the members' directives
+	Extra  []string // stream flags: further flags (`--name=value`), the ones `transcode --help` offers and the check has no model of
 }
 
 func (tc *c16Case) Args(path string) []string {
 	if tc.NoV {
 		return []string{"transcode", path}
 	}
-	return []string{"transcode", "-v", tc.V, path}
+	return append(append([]string{"transcode", "-v", tc.V}, tc.Extra...), path)
 }
 
 func (tc *c16Case) Input() map[string]any {
 	a := "transcode -v " + tc.V + " FILE"
+	if len(tc.Extra) > 0 {
+		a = "transcode -v " + tc.V + " " + strings.Join(tc.Extra, " ") + " FILE"
+	}
 	if tc.NoV {
 		a = "transcode FILE"
 	}
@@ -860,6 +865,7 @@ func runC16(c *Ctx) {
 	d2 = append(d2, c16RunTrees(c, dir, 0, c.N(2000, 40000))...)
 	d2 = append(d2, runStream("epochs", 0, c.N(1500, 30000), false)...)
 	d2 = append(d2, c16RunBig(c, dir, 0, c.N(10, 120))...)
+	d2 = append(d2, c16RunFlags(c, dir, 0, c.N(150, 6000))...)
 	runDecStream(c, c.N(2000, 20000))
 	// directed search: when code and model differ, widen the round (3x the budget of the stream, fresh indices):
 	// the invariants are evaluated on the real output of every additional case
@@ -1767,6 +1773,240 @@ func c16RunBig(c *Ctx, dir string, lo, hi int) (disagree []int) {
 			in := tc.Input()
 			delete(in, "wire_journal")
 			c.Sample(map[string]any{"args": in["args"], "tree": in["tree"], "bookings": len(tc.J.Dirs)})
+		}
+	}
+	bt.Flush()
+	for k, ok := range flags {
+		if !ok {
+			disagree = append(disagree, cases[k].Idx)
+		}
+	}
+	return
+}
+
+// ---------------------------------------------------------------- stream "flags": the flags the command offers
+//
+// The other streams run `knut transcode -v V FILE` only.  The property speaks about the ledger the command prints,
+// whatever else is on the command line: this stream reads `knut transcode --help` and takes every flag the check has no
+// model of (everything but --help and -v/--val), draws values by the TYPE word of the help line (numbers: -1, 0, 1, 2,
+// 4, 8; a flag without type: present; everything else: a date inside / before / after the journal's span, a commodity or
+// an account of the journal, an account regex, the empty string - dates preferred when the type word looks like a date),
+// alone, in pairs and in triples, on journals with two to six asset/liability accounts holding one to three foreign
+// commodities whose prices have 4-8 fractional digits (so that every value in V has many digits).  The meaning of such
+// a flag is unknown, so there is no comparison with the model: whenever the command exits 0 its output is judged by the
+// model-free monitors of the property's own statement (readable as beancount, EVERY transaction sums to exactly zero,
+// chronological, every account open when used, operating_currency); a non-zero exit must be a clean failure (a
+// diagnostic, nothing on stdout, no panic).  On a tree without unknown flags the stream runs the known vector on the
+// same journals and judges it like the stream transcode (against the model, all monitors).
+
+var c16FlagsAL = []string{"Assets:Bank", "Assets:Broker", "Assets:Cash", "Liabilities:Card", "Assets:Pension:P2", "Liabilities:Mortgage", "Assets:Bank:Savings"}
+
+func c16FlagsUnknown(c *Ctx) []c08HelpFlag {
+	code, so, se := runKnut(c.KnutBin, 60*time.Second, nil, "transcode", "--help")
+	if code == -2 {
+		code, so, se = runKnut(c.KnutBin, 180*time.Second, nil, "transcode", "--help")
+	}
+	var res []c08HelpFlag
+	for _, f := range c08ParseHelp(so + "\n" + se) {
+		if f.Name != "help" && f.Name != "val" && f.Name != "version" {
+			res = append(res, f)
+		}
+	}
+	return res
+}
+
+func c16FlagNumeric(t string) bool {
+	t = strings.ToLower(strings.Trim(t, "<>"))
+	for _, p := range []string{"int", "uint", "float", "count", "number", "digits"} {
+		if strings.HasPrefix(t, p) {
+			return true
+		}
+	}
+	return false
+}
+
+func c16GenFlags(c *Ctx, i int, unknown []c08HelpFlag) *c16Case {
+	const stream = "flags"
+	r := c.Rng(stream, i)
+	val := Pick(r, []string{"CHF", "CHF", "USD", "EUR"})
+	tc := &c16Case{Stream: stream, Idx: i, V: val}
+	base := 737000 + r.Intn(1500)
+	span := Pick(r, []int{3, 10, 40, 400})
+	als := append([]string(nil), c16FlagsAL...)
+	for k := len(als) - 1; k > 0; k-- {
+		m := r.Intn(k + 1)
+		als[k], als[m] = als[m], als[k]
+	}
+	als = als[:r.Range(2, 6)]
+	equity := Pick(r, []string{"Equity:Equity", "Equity:Equity", "Equity:Opening"})
+	others := []string{equity, "Income:Salary", "Expenses:Food"}
+	price := func() string {
+		nd := r.Range(4, 8)
+		f := r.Intn(c16Pow10(nd)-1) + 1
+		return fmt.Sprintf("%d.%0*d", Pick(r, []int{0, 0, 1, 7, 113}), nd, f)
+	}
+	var dirs []JDir
+	coms := []string{val}
+	for _, cm := range []string{"USD", "EUR", "AAPL", "BTC", "CHF"} {
+		if cm != val && len(coms) < 4 && (len(coms) == 1 || r.Chance(1, 2)) {
+			coms = append(coms, cm)
+			dirs = append(dirs, JDir{Kind: 'p', Date: base, Com: cm, Price: price(), Target: val})
+			for k := r.Intn(3); k > 0; k-- {
+				dirs = append(dirs, JDir{Kind: 'p', Date: base + 1 + 2*r.Intn(span/2+1), Com: cm, Price: price(), Target: val})
+			}
+		}
+	}
+	for _, a := range append(append([]string(nil), als...), others...) {
+		dirs = append(dirs, JDir{Kind: 'o', Date: base, Account: a})
+	}
+	qty := func() string {
+		q := fmt.Sprintf("%d", r.Range(1, 5000))
+		if nd := r.Intn(4); nd > 0 {
+			q += fmt.Sprintf(".%0*d", nd, r.Intn(c16Pow10(nd)))
+		}
+		if r.Chance(1, 8) {
+			q = "-" + q
+		}
+		return q
+	}
+	// every asset/liability account is funded early in a foreign commodity; further bookings over the span
+	for k, a := range als {
+		dirs = append(dirs, JDir{Kind: 't', Date: base + r.Intn(2), Desc: fmt.Sprintf("fund %d", k),
+			Bookings: []JBook{{equity, a, qty(), coms[1+r.Intn(len(coms)-1)]}}})
+	}
+	for k := r.Range(2, 14); k > 0; k-- {
+		a := Pick(r, als)
+		b := Pick(r, append(append([]string(nil), als...), others...))
+		if a == b {
+			b = others[1]
+		}
+		if r.Bool() {
+			a, b = b, a
+		}
+		dirs = append(dirs, JDir{Kind: 't', Date: base + r.Intn(span+1), Desc: fmt.Sprintf("booking %d", k),
+			Bookings: []JBook{{a, b, qty(), Pick(r, coms)}}})
+	}
+	sort.SliceStable(dirs, func(x, y int) bool { return dirs[x].Date < dirs[y].Date })
+	tc.J = &Journal{Dirs: dirs}
+	tc.Text, _ = tc.J.Text()
+	// the flags
+	if len(unknown) == 0 {
+		tc.Tags = []string{"flags:known-vector"}
+		return tc
+	}
+	fs := append([]c08HelpFlag(nil), unknown...)
+	for k := len(fs) - 1; k > 0; k-- {
+		m := r.Intn(k + 1)
+		fs[k], fs[m] = fs[m], fs[k]
+	}
+	fs = fs[:min(1+i%3, len(fs))]
+	sort.Slice(fs, func(x, y int) bool { return fs[x].Name < fs[y].Name })
+	dates := []string{fmtDate(base + 1 + r.Intn(span)), fmtDate(base + span/2), fmtDate(base + span), fmtDate(base), fmtDate(base - 10), fmtDate(base + span + 30)}
+	words := []string{Pick(r, coms), Pick(r, als), "Assets", "^Assets:B", "Equity|Income", "", "1,Assets"}
+	names := []string{}
+	for _, f := range fs {
+		names = append(names, f.Name)
+		t := strings.ToLower(f.Type)
+		switch {
+		case f.isBool():
+			tc.Extra = append(tc.Extra, "--"+f.Name)
+		case c16FlagNumeric(f.Type):
+			tc.Extra = append(tc.Extra, "--"+f.Name+"="+Pick(r, []string{"-1", "0", "1", "2", "4", "8"}))
+		case (strings.Contains(t, "yyyy") || strings.Contains(t, "date")) && r.Chance(4, 5):
+			tc.Extra = append(tc.Extra, "--"+f.Name+"="+Pick(r, dates))
+		default:
+			tc.Extra = append(tc.Extra, "--"+f.Name+"="+Pick(r, append(append([]string(nil), dates...), words...)))
+		}
+	}
+	tc.Tags = []string{"flags:" + strings.Join(names, "+")}
+	return tc
+}
+
+func c16Pow10(n int) int {
+	p := 1
+	for ; n > 0; n-- {
+		p *= 10
+	}
+	return p
+}
+
+// c16CheckFlags judges a run with flags the check has no model of: the property's own statement on the real output.
+func c16CheckFlags(c *Ctx, tc *c16Case) {
+	c.Evals++
+	in := tc.Input()
+	impl := tc.implOutcome()
+	for _, t := range tc.Tags {
+		c.Tag(t)
+	}
+	if tc.Code != 0 {
+		c.Tag("flags-rejected")
+		c.Class(fmt.Sprintf("c16/flags/%s/%s", strings.Fields(impl)[0], tc.Tags[0]))
+		c.Monitor(tc.Stream, tc.Idx, "clean_failure", in, impl == "error" && tc.Stdout == "" && strings.TrimSpace(tc.Stderr) != "",
+			fmt.Sprintf("exit %d stdout %q stderr %q", tc.Code, clip(tc.Stdout), clip(tc.Stderr)))
+		return
+	}
+	c.Tag("flags-accepted")
+	cur, es, err := c16Read(tc.Stdout)
+	if !c.Monitor(tc.Stream, tc.Idx, "beancount_readable", in, err == nil, fmt.Sprintf("%v\n%s", err, tc.Stdout)) {
+		return
+	}
+	v := c16Evaluate(cur, es)
+	maxLegs := 0
+	for _, e := range es {
+		maxLegs = max(maxLegs, len(e.Postings))
+	}
+	c.Class(fmt.Sprintf("c16/flags/ok/%s/tx%s/legs%s", tc.Tags[0], bucket(v.UserTx+v.AdjustmentTx), bucket(maxLegs)))
+	out := "\n" + tc.Stdout
+	c.Monitor(tc.Stream, tc.Idx, "operating_currency", in, cur == tc.V && len(v.WrongCur) == 0,
+		fmt.Sprintf("option names %q, -v is %q, postings in %v%s", cur, tc.V, v.WrongCur, out))
+	c.Monitor(tc.Stream, tc.Idx, "balanced", in, len(v.Unbalanced) == 0, strings.Join(v.Unbalanced, "; ")+out)
+	c.Monitor(tc.Stream, tc.Idx, "chronological", in, len(v.OutOfOrder) == 0, strings.Join(v.OutOfOrder, "; ")+out)
+	c.Monitor(tc.Stream, tc.Idx, "open_before_use_and_not_after_close", in, len(v.Unopened) == 0, "not open: "+strings.Join(v.Unopened, "; ")+out)
+	if len(v.UnopenedVal) > 0 {
+		c.MonitorKnown(tc.Stream, tc.Idx, "open_before_use_and_not_after_close", in, "generated valuation account never opened: "+strings.Join(v.UnopenedVal, "; ")+out, "valuation-account-not-opened")
+	}
+}
+
+func c16RunFlags(c *Ctx, dir string, lo, hi int) (disagree []int) {
+	const stream = "flags"
+	var cases []*c16Case
+	var unknown []c08HelpFlag
+	for i := lo; i < hi; i++ {
+		if c.Want(stream, i) {
+			if len(cases) == 0 {
+				unknown = c16FlagsUnknown(c)
+			}
+			cases = append(cases, c16GenFlags(c, i, unknown))
+		}
+	}
+	if len(cases) == 0 {
+		return
+	}
+	if len(unknown) > 0 {
+		names := []string{}
+		for _, f := range unknown {
+			names = append(names, "--"+f.Name+" "+f.Type)
+		}
+		c.Notes = append(c.Notes, "stream flags: flags of `transcode --help` without a model: "+strings.Join(names, ", "))
+	}
+	parallelFor(len(cases), 16, func(k int) {
+		tc := cases[k]
+		tc.run(c, dir)
+		if tc.Code == -2 { // a busy machine: once more
+			tc.run(c, dir)
+		}
+	})
+	bt := c.NewBatch()
+	flags := make([]bool, len(cases))
+	for k, tc := range cases {
+		flags[k] = true
+		if len(tc.Extra) == 0 {
+			c16Check(c, bt, tc, &flags[k])
+		} else {
+			c16CheckFlags(c, tc)
+		}
+		if tc.Idx < 1 {
+			c.Sample(map[string]any{"args": tc.Input()["args"], "journal": tc.Text, "stdout": tc.Stdout})
 		}
 	}
 	bt.Flush()
